@@ -21,8 +21,14 @@ def models(tier):
     for c in (0, 1, 2):
         alpha += [("m", c, "cer_p0"), ("eof", c)]
     for c in (0, 1):
-        alpha += [("m", c, "cer_p1"), ("m", c, "cer_unknown"), ("m", c, "cer_nocommon"), ("m", c, "dpr"), ("rst", c), ("m", c, "dwa")]
+        alpha += [("m", c, "cer_p1"), ("m", c, "cer_unknown"), ("m", c, "cer_nocommon"), ("m", c, "dpr"), ("rst", c), ("m", c, "dwa"), ("m", c, "badlen")]
     out.append(monitors.ScenarioModel("inbound-up-to-3-connections", BASE, alpha, MONS, max_socks=3))
+    # a ready connection that is awaiting its DWA while other connections come and go; garbage that makes the reader close
+    alpha = [("accept",), ("tick", 1), ("m", 0, "dwa"), ("m", 0, "badlen"), ("eof", 0)]
+    for c in (1, 2):
+        alpha += [("m", c, "cer_p1"), ("m", c, "cer_unknown"), ("eof", c), ("m", c, "badlen")]
+    out.append(monitors.ScenarioModel("ready-connection-awaiting-DWA", BASE, alpha, MONS, max_socks=3,
+                                      prelude=[("accept",), ("m", 0, "cer_p0"), ("tick", 4)]))
     # outbound persistent peer + inbound from the other / the same peer
     ob = copy.deepcopy(BASE)
     ob["peers"][0].update({"ips": ["10.1.0.1"], "persistent": True, "reconnect_wait": 2})
